@@ -188,7 +188,7 @@ func Canonicalize(pkgs []*packages.Package, reload func(map[string][]byte) ([]*p
 	// stage 2b: a known one-parameter function that became a parameterless method reading that argument from a field
 	// of its receiver (`findResultKeys(dn.results)` -> `dn.resultKeys()`) is given its known form again
 	currentOverlay = cn.Overlay
-	for _, compute := range []func([]*packages.Package) (map[string][]renameEdit, []string){computeReceiverFieldBacks, computeFieldsToReceiverBacks, computeStructParamBacks} {
+	for _, compute := range []func([]*packages.Package) (map[string][]renameEdit, []string){computeReceiverFieldBacks, computeFieldsToReceiverBacks, computeStructParamBacks, computeReceiverOwnerBacks} {
 		edits, notes := compute(pkgs)
 		if len(edits) == 0 || reload == nil {
 			continue
@@ -3072,6 +3072,245 @@ func computeStructParamBacks(pkgs []*packages.Package) (map[string][]renameEdit,
 				notes = append(notes, fmt.Sprintf("%s takes %d of its known parameters bundled in a %s: declaration and %d call(s) rewritten to the known parameter list", n, len(fieldOf), local(flat[sidx].obj.Type()), handled))
 			}
 		}
+	}
+	return edits, notes
+}
+
+// computeReceiverOwnerBacks: known METHODS (X).m(P...) R are missing and new methods of the SAME names, parameters
+// and results exist on the type F of exactly one field fld of the struct X (`(dg *Graph) failNode` ->
+// `(f *FailedNodes) failNode`, called as `dg.Failed.failNode(..)`): the methods moved to the part of the receiver they
+// used. Each such method gets its known receiver back (named as the rules know it), every use of its receiver in its body
+// becomes `recv.fld`, and every call `x.fld.m(args)` (x plain) becomes `x.m(args)`; a call on the receiver of another
+// moved method, `f.m(args)`, becomes `recv.m(args)`. All uses of the moved methods must be such calls.
+func computeReceiverOwnerBacks(pkgs []*packages.Package) (map[string][]renameEdit, []string) {
+	edits := map[string][]renameEdit{}
+	var notes []string
+	q := func(p *types.Package) string { return p.Path() }
+	for _, pk := range pkgs {
+		if !analysedPkg(pk.PkgPath) {
+			continue
+		}
+		prefix := strings.ReplaceAll(pk.PkgPath, ModPath, "dig")
+		decl := map[string]*types.Func{}
+		declAST := map[string]*ast.FuncDecl{}
+		for _, f := range pk.Syntax {
+			for _, d := range f.Decls {
+				if fd, ok := d.(*ast.FuncDecl); ok {
+					if o, ok := pk.TypesInfo.Defs[fd.Name].(*types.Func); ok {
+						decl[shortFuncName(o)] = o
+						declAST[shortFuncName(o)] = fd
+					}
+				}
+			}
+		}
+		type move struct {
+			known, cur string
+			fld        *types.Var
+			recvT      types.Type
+			rname      string
+		}
+		var moves []move
+		for m, ks := range knownFuncs {
+			if knownPkgOf(m) != prefix || !strings.HasPrefix(m, "(") {
+				continue
+			}
+			if _, ok := decl[m]; ok {
+				continue
+			}
+			i := strings.Index(ks, " -> ")
+			if i < 2 {
+				continue
+			}
+			kp := splitTop(ks[1 : i-1])
+			base := m[strings.LastIndex(m, ".")+1:]
+			// the known receiver type
+			var recvT types.Type
+			sc := pk.Types.Scope()
+			for _, nm := range sc.Names() {
+				if tn, ok := sc.Lookup(nm).(*types.TypeName); ok {
+					if types.TypeString(tn.Type(), q) == kp[0] {
+						recvT = tn.Type()
+					} else if types.TypeString(types.NewPointer(tn.Type()), q) == kp[0] {
+						recvT = types.NewPointer(tn.Type())
+					}
+				}
+			}
+			if recvT == nil {
+				continue
+			}
+			under := recvT
+			if pt, ok := under.(*types.Pointer); ok {
+				under = pt.Elem()
+			}
+			st, ok := under.Underlying().(*types.Struct)
+			if !ok {
+				continue
+			}
+			for u, o := range decl {
+				if _, known := knownFuncs[u]; known || u[strings.LastIndex(u, ".")+1:] != base {
+					continue
+				}
+				sig := o.Type().(*types.Signature)
+				if sig.Recv() == nil {
+					continue
+				}
+				cs := SigKey(o)
+				j := strings.Index(cs, " -> ")
+				if j < 2 || cs[j:] != ks[i:] {
+					continue
+				}
+				cp := splitTop(cs[1 : j-1])
+				if len(cp) != len(kp) || strings.Join(cp[1:], ",") != strings.Join(kp[1:], ",") {
+					continue
+				}
+				var fld *types.Var
+				n := 0
+				for k := 0; k < st.NumFields(); k++ {
+					ft := st.Field(k).Type()
+					if types.TypeString(ft, q) == cp[0] || types.TypeString(types.NewPointer(ft), q) == cp[0] {
+						fld = st.Field(k)
+						n++
+					}
+				}
+				if n != 1 {
+					continue
+				}
+				rname := "recv0"
+				if ns, ok := frozenParamNames[m]; ok && len(ns) > 0 && ns[0] != "" && ns[0] != "_" {
+					rname = ns[0]
+				}
+				moves = append(moves, move{m, u, fld, recvT, rname})
+			}
+		}
+		if len(moves) == 0 {
+			continue
+		}
+		moved := map[types.Object]move{}
+		recvOf := map[types.Object]move{} // receiver variable of a moved method -> its move
+		for _, mv := range moves {
+			moved[decl[mv.cur]] = mv
+			fd := declAST[mv.cur]
+			if fd.Recv != nil && len(fd.Recv.List) == 1 && len(fd.Recv.List[0].Names) == 1 {
+				if ob := pk.TypesInfo.Defs[fd.Recv.List[0].Names[0]]; ob != nil {
+					recvOf[ob] = mv
+				}
+			}
+		}
+		local := func(t types.Type) string {
+			return types.TypeString(t, func(p *types.Package) string {
+				if p == pk.Types {
+					return ""
+				}
+				return p.Name()
+			})
+		}
+		var es []renameEdit
+		okAll := true
+		handled := 0
+		total := 0
+		for _, ob := range pk.TypesInfo.Uses {
+			if _, ok := moved[ob]; ok {
+				total++
+			}
+		}
+		for _, p2 := range pkgs {
+			if p2 != pk {
+				for _, ob := range p2.TypesInfo.Uses {
+					if _, ok := moved[ob]; ok {
+						okAll = false
+					}
+				}
+			}
+		}
+		callRecv := map[*ast.Ident]bool{} // receiver identifiers consumed by a call rewrite
+		for _, f := range pk.Syntax {
+			fname := pk.Fset.Position(f.Pos()).Filename
+			fsrc, err := os.ReadFile(fname)
+			if b, ok := currentOverlay[fname]; ok {
+				fsrc, err = b, nil
+			}
+			if err != nil {
+				okAll = false
+				break
+			}
+			t2 := func(nd ast.Node) string {
+				return string(fsrc[pk.Fset.Position(nd.Pos()).Offset:pk.Fset.Position(nd.End()).Offset])
+			}
+			ast.Inspect(f, func(nd ast.Node) bool {
+				call, ok := nd.(*ast.CallExpr)
+				if !ok {
+					return true
+				}
+				se, ok := call.Fun.(*ast.SelectorExpr)
+				if !ok {
+					return true
+				}
+				mv, ok := moved[pk.TypesInfo.Uses[se.Sel]]
+				if !ok {
+					return true
+				}
+				handled++
+				switch x := se.X.(type) {
+				case *ast.SelectorExpr:
+					if x.Sel.Name != mv.fld.Name() || !plainExpr(x.X) {
+						okAll = false
+						return true
+					}
+					// x.X may itself be the receiver of a moved method? not in this shape
+					es = append(es, renameEdit{file: fname, off: pk.Fset.Position(se.X.Pos()).Offset, end: pk.Fset.Position(se.X.End()).Offset, text: t2(x.X)})
+				case *ast.Ident:
+					own, isRecv := recvOf[pk.TypesInfo.Uses[x]]
+					if !isRecv || own.fld != mv.fld {
+						okAll = false
+						return true
+					}
+					callRecv[x] = true
+					es = append(es, renameEdit{file: fname, off: pk.Fset.Position(x.Pos()).Offset, end: pk.Fset.Position(x.End()).Offset, text: own.rname})
+				default:
+					okAll = false
+				}
+				return true
+			})
+		}
+		if !okAll || handled != total || handled == 0 {
+			continue
+		}
+		for _, mv := range moves {
+			fd := declAST[mv.cur]
+			file := pk.Fset.Position(fd.Pos()).Filename
+			if fd.Recv == nil || len(fd.Recv.List) != 1 || len(fd.Recv.List[0].Names) != 1 || fd.Body == nil {
+				okAll = false
+				break
+			}
+			rid := fd.Recv.List[0].Names[0]
+			robj := pk.TypesInfo.Defs[rid]
+			// the known receiver name must be free in the method
+			ast.Inspect(fd, func(nd ast.Node) bool {
+				if id, ok := nd.(*ast.Ident); ok && id.Name == mv.rname && id != rid {
+					okAll = false
+				}
+				return true
+			})
+			es = append(es, renameEdit{file: file, off: pk.Fset.Position(fd.Recv.Pos()).Offset, end: pk.Fset.Position(fd.Recv.End()).Offset, text: "(" + mv.rname + " " + local(mv.recvT) + ")"})
+			ast.Inspect(fd.Body, func(nd ast.Node) bool {
+				if id, ok := nd.(*ast.Ident); ok && pk.TypesInfo.Uses[id] == robj && !callRecv[id] {
+					es = append(es, renameEdit{file: file, off: pk.Fset.Position(id.Pos()).Offset, end: pk.Fset.Position(id.End()).Offset, text: mv.rname + "." + mv.fld.Name()})
+				}
+				return true
+			})
+		}
+		if !okAll {
+			continue
+		}
+		for _, e := range es {
+			edits[e.file] = append(edits[e.file], e)
+		}
+		var names []string
+		for _, mv := range moves {
+			names = append(names, mv.cur)
+		}
+		sort.Strings(names)
+		notes = append(notes, fmt.Sprintf("%s moved to the type of the receiver field they used: given their known receiver back, %d call(s) rewritten", strings.Join(names, ", "), handled))
 	}
 	return edits, notes
 }
